@@ -1,9 +1,8 @@
 CONSTANTS
   N = 4
   NC = 2
-  IdOf <- IdPos
+  IdOf <- IdShift
   UseZip = FALSE
 SPECIFICATION Spec
-INVARIANT Attribution
 INVARIANT OtherWriteBacks
 CHECK_DEADLOCK FALSE
